@@ -312,6 +312,14 @@ def name_reuse():
         # and the other way round: the string-typed name comes later than the int one
         out["reuse_%s_after_int" % ok] = prog([Println(Call("inc", I(41))), Println(call)], [
             Func("inc", [("n", "int")], "int", [Println(V("n")), Ret(Bin("+", V("n"), I(1)))]), other])
+    # the name of a mutable local of an earlier function, bound again by a for loop / an immutable let / a parameter later on
+    cnt = Func("count_down", [("k", "int")], "int", [Let("n", "int", V("k"), True), While(Bin(">", V("n"), I(0)), [Set("n", Bin("-", V("n"), I(1)))]), Ret(V("n"))])
+    out["reuse_mutlocal_forvar"] = prog([Println(Call("count_down", I(3))), Println(Call("total", I(4)))], [cnt,
+        Func("total", [("m", "int")], "int", [Let("acc", "int", I(0), True), For("n", I(0), V("m"), [Set("acc", Bin("+", V("acc"), V("n")))]), Ret(V("acc"))])])
+    out["reuse_mutlocal_let"] = prog([Println(Call("count_down", I(3))), Println(Call("twice", I(4)))], [cnt,
+        Func("twice", [("m", "int")], "int", [Let("n", "int", Bin("*", V("m"), I(2))), Ret(V("n"))])])
+    out["reuse_mutlocal_param"] = prog([Println(Call("count_down", I(3))), Println(Call("inc", I(4)))], [cnt,
+        Func("inc", [("n", "int")], "int", [Ret(Bin("+", V("n"), I(1)))])])
     # a loop variable that shadows a local / parameter: after the loop the outer one is back, for 0, 1, n iterations
     for iters in (0, 1, 3):
         out["reuse_forvar_shadows_local_%d" % iters] = prog([Let("i", "int", I(10)), For("i", I(0), I(iters), [Println(V("i"))]), Println(Bin("+", V("i"), I(1)))])
@@ -331,6 +339,73 @@ def name_reuse():
         [Func("f", [("k", "int")], "int", [Let("g", "int", Bin("*", V("k"), I(7))), Ret(V("g"))])], globals_=[("g", "int", False, I(5))])
     out["reuse_forvar_like_global"] = prog([For("g", I(0), I(2), [Println(V("g"))]), Println(V("g")), Println(Call("f"))],
         [Func("f", [], "int", [Ret(V("g"))])], globals_=[("g", "int", False, I(5))])
+    return out
+
+
+def fn_values():
+    """first-class functions (3.4.5): calls through a function value behave like direct calls wherever the callee is
+    defined (before / after its caller), whatever it does before it returns (prints, asserts, loops, calls on), and
+    however the value travels (parameter, let, return value, array of callers)"""
+    out = {}
+    FII = "fn(int) -> int"
+    noisy = Func("noisy", [("x", "int")], "int", [Println(S("in noisy")), Println(V("x")), Assert(Bin(">", V("x"), I(-100))), Println(S("leaving")), Ret(Bin("*", V("x"), I(2)))])
+    quiet = Func("quiet", [("x", "int")], "int", [Ret(Bin("+", V("x"), I(3)))])
+    looping = Func("looping", [("x", "int")], "int", [Let("s", "int", I(0), True), For("i", I(0), V("x"), [Println(V("i")), Set("s", Bin("+", V("s"), V("i")))]), Ret(V("s"))])
+    apply1 = Func("apply1", [("f", FII), ("x", "int")], "int", [Println(S("apply")), Let("r", "int", Call("f", V("x"))), Println(S("applied")), Ret(Bin("+", V("r"), I(1)))])
+    twice = Func("twice", [("f", FII), ("x", "int")], "int", [Ret(Call("f", Call("f", V("x"))))])
+    pick = Func("pick", [("k", "int")], FII, [If(Bin("==", V("k"), I(0)), [Ret(V("noisy"))], []), If(Bin("==", V("k"), I(1)), [Ret(V("looping"))], []), Ret(V("quiet"))])
+    main_body = [Println(Call("apply1", V("noisy"), I(10))), Println(Call("apply1", V("quiet"), I(10))), Println(Call("twice", V("noisy"), I(2))),
+                 Let("g", FII, V("looping")), Println(Call("g", I(3))), Let("h", FII, Call("pick", I(0))), Println(Call("h", I(4))), Println(Call("apply1", Call("pick", I(1)), I(2))),
+                 Println(S("end"))]
+    T_, TB_ = T, TB
+    mainf = Func("main", [], "int", main_body + [Ret(I(0))])
+    orders = {"callees_first": [noisy, quiet, looping, apply1, twice, pick, mainf],
+              "callees_last": [mainf, apply1, twice, pick, noisy, quiet, looping],
+              "callers_between": [noisy, apply1, mainf, twice, quiet, pick, looping]}
+    for nm, fs in orders.items():
+        out["fnval_order_" + nm] = Program([T_, TB_] + fs, structs=STRUCTS, enums=ENUMS, unions=UNIONS)
+    # a callee reached through a function value calls on through another function value
+    out["fnval_chain_after_main"] = Program([T_, TB_, Func("main", [], "int", [Println(Call("outer", V("mid"), I(3))), Println(S("end")), Ret(I(0))]),
+                                             Func("outer", [("f", "fn(fn(int) -> int, int) -> int"), ("x", "int")], "int", [Println(S("outer")), Ret(Call("f", V("leaf"), V("x")))]),
+                                             Func("mid", [("g", FII), ("x", "int")], "int", [Println(S("mid")), Let("r", "int", Call("g", V("x"))), Println(S("mid done")), Ret(Bin("+", V("r"), I(100)))]),
+                                             Func("leaf", [("x", "int")], "int", [Println(S("leaf")), Println(V("x")), Ret(Bin("*", V("x"), V("x")))])],
+                                            structs=STRUCTS, enums=ENUMS, unions=UNIONS)
+    out["fnval_param_named_like_function"] = Program([T_, TB_, Func("f", [("x", "int")], "int", [Ret(Bin("+", V("x"), I(100)))]), Func("g", [("x", "int")], "int", [Ret(Bin("*", V("x"), I(2)))]),
+                                                      Func("ap", [("f", FII), ("x", "int")], "int", [Ret(Call("f", V("x")))]),
+                                                      Func("main", [], "int", [Println(Call("ap", V("g"), I(5))), Println(Call("ap", V("f"), I(5))), Ret(I(0))])],
+                                                     structs=STRUCTS, enums=ENUMS, unions=UNIONS)
+    # recursion through a function value, callee after caller, printing on the way down and up
+    out["fnval_recursive_after_main"] = Program([T_, TB_, Func("main", [], "int", [Println(Call("drive", V("down"), I(3))), Ret(I(0))]),
+                                                 Func("drive", [("f", FII), ("n", "int")], "int", [Ret(Call("f", V("n")))]),
+                                                 Func("down", [("n", "int")], "int", [Println(V("n")), If(Bin("<=", V("n"), I(0)), [Ret(I(0))], []),
+                                                                                      Let("r", "int", Call("drive", V("down"), Bin("-", V("n"), I(1)))), Println(Bin("+", V("r"), V("n"))), Ret(Bin("+", V("r"), V("n")))])],
+                                                structs=STRUCTS, enums=ENUMS, unions=UNIONS)
+    return out
+
+
+def strings_and_comparisons():
+    out = {}
+    out["str_escape_tab_quote_backslash"] = prog([Println(S("a\tb")), Println(S('say "hi"')), Println(S("back\\slash")), Println(Call("str_length", S("a\tb"))),
+                                                   Println(Call("str_length", S('q"q'))), Println(Call("str_length", S("x\\y")))])
+    out["str_escape_newline"] = prog([Print(S("one\ntwo\n")), Println(Call("str_length", S("x\ny"))), Println(Bin("==", S("a\nb"), Bin("+", S("a\n"), S("b"))))])
+    out["str_escape_in_concat_and_compare"] = prog([Let("s", "string", Bin("+", S("k\t"), Call("int_to_string", I(5)))), Println(Call("str_length", V("s"))), Println(Call("str_contains", V("s"), S("\t"))),
+                                                    Println(Call("char_at", V("s"), I(1)))])
+    AAI = "array<array<int>>"
+    out["nested_array_via_let"] = prog([Let("g", AAI, ALit("array<int>", [ALit("int", [I(1), I(2)]), ALit("int", [I(3), I(4)])])), Let("r", "array<int>", Call("at", V("g"), I(1))),
+                                        Println(Call("at", V("r"), I(0))), Println(Call("array_length", V("g"))), Println(Call("array_length", Call("at", V("g"), I(0)))),
+                                        Let("r0", "array<int>", Call("at", V("g"), I(0)), True), Ex(Call("array_set", V("r0"), I(0), I(99))), Let("again", "array<int>", Call("at", V("g"), I(0))),
+                                        Println(Call("at", V("again"), I(0)))])
+    out["nested_array_println_direct"] = prog([Let("g", AAI, ALit("array<int>", [ALit("int", [I(1), I(2)]), ALit("int", [I(3), I(4)])])), Println(Call("at", Call("at", V("g"), I(1)), I(0)))])
+    ua = [("A", [("P", [("v", "int"), ("w", "int")]), ("Q", [("w", "int")])]), ("B", [("R", [("w", "int"), ("v", "int")]), ("S", [("v", "int")])])]
+    out["union_shared_field_names"] = Program([T, TB,
+        Func("fa", [("a", "A")], "int", [Match(V("a"), [("A.P", "p", [Ret(Bin("+", Bin("*", Field(V("p"), "v"), I(10)), Field(V("p"), "w")))]), ("A.Q", "q", [Ret(Field(V("q"), "w"))])]), Ret(I(-1))]),
+        Func("fb", [("b", "B")], "int", [Match(V("b"), [("B.R", "r", [Ret(Bin("+", Bin("*", Field(V("r"), "v"), I(10)), Field(V("r"), "w")))]), ("B.S", "s", [Ret(Field(V("s"), "v"))])]), Ret(I(-1))]),
+        Func("main", [], "int", [Println(Call("fa", ULit("A.P", [("v", I(1)), ("w", I(2))]))), Println(Call("fa", ULit("A.Q", [("w", I(3))]))),
+                                 Println(Call("fb", ULit("B.R", [("w", I(4)), ("v", I(5))]))), Println(Call("fb", ULit("B.S", [("v", I(6))]))), Ret(I(0))])],
+        structs=STRUCTS + [("Pair", [("w", "int"), ("v", "int")])], enums=ENUMS, unions=UNIONS + ua)
+    out["cmp_of_cmp"] = prog([Let("a", "int", Call("t", I(3))), Let("b", "int", Call("t", I(4))), Let("c", "int", Call("t", I(9))),
+                              Println(Bin("==", Bin("==", V("a"), V("b")), Bin("==", V("c"), I(9)))), Println(Bin("==", Bin("<", V("a"), V("b")), Bin(">", V("c"), I(2)))),
+                              Println(Bin("!=", Bin("==", V("a"), V("b")), B(True))), Println(Bin("and", Bin("==", Bin("<", V("a"), V("b")), B(True)), Bin("!=", Bin(">=", V("a"), V("b")), B(True))))])
     return out
 
 
@@ -399,7 +474,7 @@ def maps():
 
 def all_families():
     out = {}
-    for f in (short_circuit, eval_order, scopes, loops, data, imports, externs, name_reuse, maps):
+    for f in (short_circuit, eval_order, scopes, loops, data, imports, externs, name_reuse, maps, fn_values, strings_and_comparisons):
         out.update(f())
     from .families_lib import lib_families       # programs over the standard library (NanoLib.tla)
     out.update(lib_families())
